@@ -579,7 +579,7 @@ def rand_od14(rng, size=None, types=None):
             subs = list(range(n)) if rng.random() < 0.7 else sorted(rng.sample(range(0, 255), n))
             if rng.random() < 0.1:
                 subs = sorted(set(subs[:-1] + [255]))
-            mnames = E.rand_names(rng, len(subs))
+            mnames = E.rand_names(rng, len(subs), dots=True)
             adt = rng.choice(E.ALL_TYPES)
             o = {"kind": kind, "name": name, "index": idx,
                  "members": [rand_var14(rng, mn, idx, s,
